@@ -7,7 +7,7 @@ namespace PyDBML
 namespace C02
 open Lex Grammar Build
 
-inductive Flag where | pk | increment | unique | notNull | note (t : Str)
+inductive Flag where | pk | increment | unique | notNull | note (t : Str) | prop (k v : Str)
   deriving DecidableEq
 
 def Flag.text : Flag → Str
@@ -16,10 +16,21 @@ def Flag.text : Flag → Str
   | .unique => ['u', 'n', 'i', 'q', 'u', 'e']
   | .notNull => ['n', 'o', 't', ' ', 'n', 'u', 'l', 'l']
   | .note t => 'n' :: 'o' :: 't' :: 'e' :: ':' :: ' ' :: '\'' :: (prepareTextForDbml t ++ ['\''])
+  | .prop k v => k ++ ':' :: ' ' :: '\'' :: (prepareTextForDbml v ++ ['\''])
+
+/-- the words a setting may begin with: a property key beginning with one of them is read as that setting
+    (KF-C01-prop-key-kw-prefix) -/
+def settingWords : List String :=
+  ["not null", "null", "primary key", "pk", "unique", "increment", "note:", "ref:", "default:"]
+
+/-- a property key: a bare identifier that no setting word is a caseless prefix of, whatever follows it -/
+def KeyOK (k : Str) : Prop :=
+  k ≠ [] ∧ k.all isNameChar = true ∧ ∀ kw ∈ settingWords, ∀ r, startsWithCaseless (k ++ r) kw.toList = false
 
 /-- what a settings item must satisfy: a note is one plain line without a triple quote -/
-def Flag.ok : Flag → Prop
+def Flag.ok (props : Bool) : Flag → Prop
   | .note t => Plain t ∧ hasTriple t = false
+  | .prop k v => props = true ∧ KeyOK k ∧ Plain v ∧ hasTriple v = false
   | _ => True
 
 def Flag.setting : Flag → ColSetting
@@ -28,6 +39,7 @@ def Flag.setting : Flag → ColSetting
   | .unique => .unique
   | .notNull => .notNull true
   | .note t => .note t
+  | .prop k v => .prop k v
 
 theorem swc_ne2 (x y : Char) (r : Str) (s : String) (k1 k2 : Char) (ks : Str) (hs : s.toList = k1 :: k2 :: ks)
     (h : (pyUpper1 k2 == pyUpper1 y) = false) : startsWithCaseless (x :: y :: r) s.toList = false := by
@@ -40,7 +52,8 @@ theorem swc_ne4 (a b c d : Char) (r : Str) (s : String) (k1 k2 k3 k4 : Char) (ks
 
 /-- one setting word, followed by a comma or the closing bracket -/
 theorem columnSetting_flag (c : Cur) (w : Flag) (x : Char) (rest : Str) (hn : (skipWs c).rest = w.text ++ x :: rest)
-    (hx : x = ',' ∨ x = ']') (hp : c.pastEnd = false) (hw : w.ok) :
+    (hx : x = ',' ∨ x = ']') (hp : c.pastEnd = false) (props : Bool) (hw : w.ok props)
+    (hnp : ∀ k v, w ≠ Flag.prop k v) :
     ∃ c', columnSetting c = .ok w.setting c' ∧ c'.rest = x :: rest ∧ c'.pastEnd = false := by
   have hxw : isWs x = false := by rcases hx with rfl | rfl <;> decide
   have hxn : x ≠ '\n' := by rcases hx with rfl | rfl <;> decide
@@ -134,6 +147,87 @@ theorem columnSetting_flag (c : Cur) (w : Flag) (x : Char) (rest : Str) (hn : (s
       clit_fail "unique" c _ _ hN (swc_ne 'n' _ "unique" 'u' _ rfl (by decide)),
       clit_fail "increment" c _ _ hN (swc_ne 'n' _ "increment" 'i' _ rfl (by decide)),
       hnote, after c2 hr2, pure, ppure, Flag.setting]
+  | prop k v => exact absurd rfl (hnp k v)
+
+theorem oneLine_of_plain (t : Str) (ht : Plain t) : C13.oneLine t = true := by
+  simp only [C13.oneLine, Bool.not_eq_true', List.any_eq_false, Bool.or_eq_true, decide_eq_true_eq, not_or]
+  intro ch hch
+  have := (ht ch hch).1
+  constructor <;> (rintro rfl; simp [isLineBreak] at this)
+
+/-- a property key is not read as a setting -/
+theorem columnSetting_key_fail (c : Cur) (k r : Str) (hk : KeyOK k) (hn : (skipWs c).rest = k ++ r) :
+    columnSetting c = .fail := by
+  obtain ⟨hne, hall, hkw⟩ := hk
+  obtain ⟨x, xs, rfl⟩ : ∃ x xs, k = x :: xs := by
+    cases k with
+    | nil => exact absurd rfl hne
+    | cons a as => exact ⟨a, as, rfl⟩
+  have hx : isNameChar x = true := by simp only [List.all_cons, Bool.and_eq_true] at hall; exact hall.1
+  have hN : Next c x (xs ++ r) := hn
+  obtain ⟨q1, q2⟩ := quiet_of_next c x _ hN (nameChar_facts x hx).2.1 (nameChar_facts x hx).2.2
+  have hs0 := skipNl_stay c q1 q2
+  have hf : ∀ kw ∈ settingWords, clit kw c = .fail := fun kw hkwm => clit_fail kw c x (xs ++ r) hN (hkw kw hkwm r)
+  have hnote : noteRule c = .fail := by
+    unfold noteRule; simp only [bind, pbind, hf "note:" (by simp [settingWords])]
+  have href : refInline c = .fail := by
+    unfold refInline; simp only [bind, pbind, hf "ref:" (by simp [settingWords])]
+  have hdef : defaultRule c = .fail := by
+    unfold defaultRule; simp only [bind, pbind, hf "default:" (by simp [settingWords])]
+  unfold columnSetting
+  simp only [bind, pbind, hs0, alt, hf "not null" (by simp [settingWords]), hf "null" (by simp [settingWords]),
+    hf "primary key" (by simp [settingWords]), hf "pk" (by simp [settingWords]), hf "unique" (by simp [settingWords]),
+    hf "increment" (by simp [settingWords]), hnote, href, hdef]
+
+/-- `key: 'value'`, followed by a comma or the closing bracket -/
+theorem prop_ok (c : Cur) (k v : Str) (x : Char) (rest : Str)
+    (hn : (skipWs c).rest = k ++ ':' :: ' ' :: '\'' :: (prepareTextForDbml v ++ '\'' :: x :: rest))
+    (hx : x = ',' ∨ x = ']') (hp : c.pastEnd = false) (hk : KeyOK k) (hv : Plain v) (h3 : hasTriple v = false) :
+    ∃ c', prop c = .ok (k, v) c' ∧ c'.rest = x :: rest ∧ c'.pastEnd = false := by
+  obtain ⟨c1, hnm, hr1, hp1⟩ := name_ok c k _ hn hk.1 hk.2.1 (by intro y hy; simp at hy; subst hy; decide) hp
+  have hN1 : Next c1 ':' (' ' :: '\'' :: (prepareTextForDbml v ++ '\'' :: x :: rest)) :=
+    skipWs_rest_head c1 ':' _ hr1 (by decide)
+  obtain ⟨c2, hcol, hr2, hp2⟩ := sym_ok ":" ':' rfl c1 _ hN1 hp1
+  have hN2 : (skipWs c2).rest = '\'' :: (prepareTextForDbml v ++ '\'' :: x :: rest) :=
+    skipWs_rest_spaces c2 1 '\'' _ (by rw [hr2]; rfl) (by decide)
+  obtain ⟨c3, hsl, hr3, hp3⟩ := stringLiteral_ok c2 v (x :: rest) hN2 hp2 (oneLine_of_plain v hv) h3
+    (Or.inr (by rcases hx with rfl | rfl <;> simp))
+  refine ⟨c3, ?_, hr3, hp3⟩
+  unfold prop
+  simp only [bind, pbind, hnm, hcol, hsl, pure, ppure]
+
+theorem columnSetting_wp (c c' : Cur) (s : ColSetting) (h : columnSetting c = .ok s c') :
+    columnSettingWithProperty c = .ok s c' := by
+  unfold columnSettingWithProperty alt; simp only [h]
+
+/-- one item of the settings list, in the grammar chosen by the properties switch -/
+theorem item_ok (props : Bool) (c : Cur) (w : Flag) (x : Char) (rest : Str)
+    (hn : (skipWs c).rest = w.text ++ x :: rest) (hx : x = ',' ∨ x = ']') (hp : c.pastEnd = false) (hw : w.ok props) :
+    ∃ c', (if props then columnSettingWithProperty else columnSetting) c = .ok w.setting c'
+      ∧ c'.rest = x :: rest ∧ c'.pastEnd = false := by
+  have key : (∀ k v, w ≠ Flag.prop k v) → ∃ c', (if props then columnSettingWithProperty else columnSetting) c
+      = .ok w.setting c' ∧ c'.rest = x :: rest ∧ c'.pastEnd = false := by
+    intro hnp
+    obtain ⟨c', h, hr, hp'⟩ := columnSetting_flag c w x rest hn hx hp props hw hnp
+    refine ⟨c', ?_, hr, hp'⟩
+    cases props
+    · exact h
+    · exact columnSetting_wp c c' _ h
+  cases w with
+  | prop k v =>
+    obtain ⟨rfl, hk, hv, h3⟩ := hw
+    have hn' : (skipWs c).rest = k ++ ':' :: ' ' :: '\'' :: (prepareTextForDbml v ++ '\'' :: x :: rest) := by
+      rw [hn]; simp [Flag.text]
+    obtain ⟨c', hpr, hr, hp'⟩ := prop_ok c k v x rest hn' hx hp hk hv h3
+    refine ⟨c', ?_, hr, hp'⟩
+    simp only [↓reduceIte]
+    unfold columnSettingWithProperty alt
+    simp only [columnSetting_key_fail c k _ hk hn', bind, pbind, hpr, pure, ppure, Flag.setting]
+  | pk => exact key (by intro k v h; cases h)
+  | increment => exact key (by intro k v h; cases h)
+  | unique => exact key (by intro k v h; cases h)
+  | notNull => exact key (by intro k v h; cases h)
+  | note t => exact key (by intro k v h; cases h)
 
 /-! ### the settings list: `[w1, w2, …]` -/
 
@@ -142,13 +236,27 @@ def moreFlags : List Flag → Str
   | [] => []
   | w :: ws => ',' :: ' ' :: (w.text ++ moreFlags ws)
 
-theorem flag_text_head (w : Flag) : ∃ y r, w.text = y :: r ∧ isWs y = false := by
-  cases w <;> simp [Flag.text] <;> decide
+theorem flag_text_head (props : Bool) (w : Flag) (hw : w.ok props) :
+    ∃ y r, w.text = y :: r ∧ isWs y = false ∧ y ≠ '\n' ∧ y ≠ '/' := by
+  cases w with
+  | prop k v =>
+    obtain ⟨_, ⟨hne, hall, _⟩, _, _⟩ := hw
+    obtain ⟨a, as, rfl⟩ : ∃ a as, k = a :: as := by
+      cases k with
+      | nil => exact absurd rfl hne
+      | cons a as => exact ⟨a, as, rfl⟩
+    have ha : isNameChar a = true := by simp only [List.all_cons, Bool.and_eq_true] at hall; exact hall.1
+    exact ⟨a, _, rfl, nameChar_facts a ha⟩
+  | pk => exact ⟨'p', _, rfl, by decide, by decide, by decide⟩
+  | increment => exact ⟨'i', _, rfl, by decide, by decide, by decide⟩
+  | unique => exact ⟨'u', _, rfl, by decide, by decide, by decide⟩
+  | notNull => exact ⟨'n', _, rfl, by decide, by decide, by decide⟩
+  | note t => exact ⟨'n', _, rfl, by decide, by decide, by decide⟩
 
-theorem many_flags (item : P ColSetting) (hitem : ∀ c c' s, columnSetting c = .ok s c' → item c = .ok s c')
-    (ws : List Flag) (post : Str) (hws : ∀ w ∈ ws, w.ok) :
+theorem many_flags (props : Bool) (ws : List Flag) (post : Str) (hws : ∀ w ∈ ws, w.ok props) :
     ∀ (fuel : Nat) (c : Cur), ws.length < fuel → c.rest = moreFlags ws ++ ']' :: post → c.pastEnd = false →
-      ∃ c', many (pbind (sym ",") fun _ => item) fuel c = .ok (ws.map Flag.setting) c'
+      ∃ c', many (pbind (sym ",") fun _ => (if props then columnSettingWithProperty else columnSetting)) fuel c
+          = .ok (ws.map Flag.setting) c'
         ∧ c'.rest = ']' :: post ∧ c'.pastEnd = false := by
   induction ws with
   | nil =>
@@ -164,7 +272,7 @@ theorem many_flags (item : P ColSetting) (hitem : ∀ c c' s, columnSetting c = 
     have hN : Next c ',' (' ' :: (w.text ++ moreFlags r ++ ']' :: post)) :=
       skipWs_rest_head c ',' _ (by rw [hc]; simp [moreFlags]) (by decide)
     obtain ⟨c1, hcm, hr1, hp1⟩ := sym_ok "," ',' rfl c _ hN hp
-    obtain ⟨y, yr, hy, hyw⟩ := flag_text_head w
+    obtain ⟨y, yr, hy, hyw, _, _⟩ := flag_text_head props w (hws w (by simp))
     -- what follows the word: a comma (more words) or the closing bracket
     obtain ⟨x, rest, hrest, hx⟩ : ∃ x rest, moreFlags r ++ ']' :: post = x :: rest ∧ (x = ',' ∨ x = ']') := by
       cases r with
@@ -173,13 +281,13 @@ theorem many_flags (item : P ColSetting) (hitem : ∀ c c' s, columnSetting c = 
     have hN1 : (skipWs c1).rest = w.text ++ x :: rest := by
       have := skipWs_rest_spaces c1 1 y (yr ++ (moreFlags r ++ ']' :: post)) (by rw [hr1, hy]; simp) hyw
       rw [this, hy, hrest]; simp
-    obtain ⟨c2, hset, hr2, hp2⟩ := columnSetting_flag c1 w x rest hN1 hx hp1 (hws w (by simp))
+    obtain ⟨c2, hset, hr2, hp2⟩ := item_ok props c1 w x rest hN1 hx hp1 (hws w (by simp))
     obtain ⟨c3, hm, hr3, hp3⟩ := ih (fun q hq => hws q (by simp [hq])) f c2 (by simp at hf; omega) (by rw [hr2, hrest]) hp2
     refine ⟨c3, ?_, hr3, hp3⟩
     have hlen : c2.rest.length ≠ c.rest.length := by
       rw [hr2, hc, ← hrest]; simp [moreFlags]; omega
     rw [many]
-    simp only [pbind, hcm, hitem c1 c2 _ hset, hlen, decide_false, Bool.false_and, Bool.false_eq_true, ↓reduceIte, hm,
+    simp only [pbind, hcm, hset, hlen, decide_false, Bool.false_and, Bool.false_eq_true, ↓reduceIte, hm,
       List.map_cons]
 
 theorem moreFlags_length (ws : List Flag) : ws.length ≤ (moreFlags ws).length := by
@@ -187,18 +295,14 @@ theorem moreFlags_length (ws : List Flag) : ws.length ≤ (moreFlags ws).length 
   | nil => simp [moreFlags]
   | cons a b ih => simp [moreFlags]; omega
 
-theorem columnSetting_wp (c c' : Cur) (s : ColSetting) (h : columnSetting c = .ok s c') :
-    columnSettingWithProperty c = .ok s c' := by
-  unfold columnSettingWithProperty alt; simp only [h]
-
 /-- `[w, ws…]` followed by a line break, in both grammars (with and without properties) -/
 theorem settings_ok (props : Bool) (c : Cur) (w : Flag) (ws : List Flag) (rest : Str)
     (hn : (skipWs c).rest = '[' :: (w.text ++ moreFlags ws ++ ']' :: '\n' :: rest)) (hp : c.pastEnd = false)
-    (hw : w.ok) (hws : ∀ q ∈ ws, q.ok) :
+    (hw : w.ok props) (hws : ∀ q ∈ ws, q.ok props) :
     ∃ c', (if props then columnSettingsWithProperties else columnSettings) c
         = .ok (foldColSettings ((w :: ws).map Flag.setting) none) c' ∧ c'.rest = '\n' :: rest ∧ c'.pastEnd = false := by
   obtain ⟨c1, hbr, hr1, hp1⟩ := sym_ok "[" '[' rfl c _ hn hp
-  obtain ⟨y, yr, hy, hyw⟩ := flag_text_head w
+  obtain ⟨y, yr, hy, hyw, hyn1, hyn2⟩ := flag_text_head props w hw
   obtain ⟨x, r', hrest, hx⟩ : ∃ x r', moreFlags ws ++ ']' :: '\n' :: rest = x :: r' ∧ (x = ',' ∨ x = ']') := by
     cases ws with
     | nil => exact ⟨']', '\n' :: rest, rfl, Or.inr rfl⟩
@@ -208,11 +312,9 @@ theorem settings_ok (props : Bool) (c : Cur) (w : Flag) (ws : List Flag) (rest :
   have hN1 : (skipWs c1).rest = w.text ++ x :: r' := by
     rw [show (skipWs c1).rest = _ from hN0, hy, hrest]; simp
   have hq1 : skipNl c1 = .ok () c1 := by
-    have hyn : y ≠ '\n' ∧ y ≠ '/' := by
-      cases w <;> simp [Flag.text] at hy <;> (obtain ⟨rfl, _⟩ := hy; exact ⟨by decide, by decide⟩)
-    obtain ⟨q1, q2⟩ := quiet_of_next c1 y _ hN0 hyn.1 hyn.2
+    obtain ⟨q1, q2⟩ := quiet_of_next c1 y _ hN0 hyn1 hyn2
     exact skipNl_stay c1 q1 q2
-  obtain ⟨c2, hset, hr2, hp2⟩ := columnSetting_flag c1 w x r' hN1 hx hp1 hw
+  obtain ⟨c2, hset, hr2, hp2⟩ := item_ok props c1 w x r' hN1 hx hp1 hw
   have hq2 : skipNl c2 = .ok () c2 := by
     have hxw : isWs x = false := by rcases hx with rfl | rfl <;> decide
     have hN : Next c2 x r' := skipWs_rest_head c2 x r' hr2 hxw
@@ -226,8 +328,9 @@ theorem settings_ok (props : Bool) (c : Cur) (w : Flag) (ws : List Flag) (rest :
     fun c3 h => skipWs_rest_head c3 ']' _ h (by decide)
   cases props with
   | false =>
-    obtain ⟨c3, hm, hr3, hp3⟩ := many_flags columnSetting (fun _ _ _ h => h) ws ('\n' :: rest) hws (c2.rest.length + 2) c2
+    obtain ⟨c3, hm, hr3, hp3⟩ := many_flags false ws ('\n' :: rest) hws (c2.rest.length + 2) c2
       hfuel (by rw [hr2, hrest]) hp2
+    simp only [Bool.false_eq_true, ↓reduceIte] at hm hset
     obtain ⟨c4, hcl, hr4, hp4⟩ := sym_ok "]" ']' rfl c3 _ (hN3 c3 hr3) hp3
     have hN4 : Next c4 '\n' rest := skipWs_rest_head c4 '\n' _ hr4 (by decide)
     have hcm : cOpt c4 = .ok none c4 := by
@@ -240,8 +343,9 @@ theorem settings_ok (props : Bool) (c : Cur) (w : Flag) (ws : List Flag) (rest :
     unfold columnSettings
     simp only [bind, pbind, hbr, cut, hset, hmF, hcl, hcm, pure, ppure, List.map_cons]
   | true =>
-    obtain ⟨c3, hm, hr3, hp3⟩ := many_flags columnSettingWithProperty columnSetting_wp ws ('\n' :: rest) hws
+    obtain ⟨c3, hm, hr3, hp3⟩ := many_flags true ws ('\n' :: rest) hws
       (c2.rest.length + 2) c2 hfuel (by rw [hr2, hrest]) hp2
+    simp only [↓reduceIte] at hm hset
     obtain ⟨c4, hcl, hr4, hp4⟩ := sym_ok "]" ']' rfl c3 _ (hN3 c3 hr3) hp3
     have hN4 : Next c4 '\n' rest := skipWs_rest_head c4 '\n' _ hr4 (by decide)
     have hcm : cOpt c4 = .ok none c4 := by
@@ -252,7 +356,7 @@ theorem settings_ok (props : Bool) (c : Cur) (w : Flag) (ws : List Flag) (rest :
     refine ⟨c4, ?_, hr4, hp4⟩
     simp only [↓reduceIte]
     unfold columnSettingsWithProperties
-    simp only [bind, pbind, hbr, cut, hq1, columnSetting_wp c1 c2 _ hset, hq2, hmF, hcl, hcm, pure, ppure, List.map_cons]
+    simp only [bind, pbind, hbr, cut, hq1, hset, hq2, hmF, hcl, hcm, pure, ppure, List.map_cons]
 
 /-! ### one column line with settings: `    "name" type [w, ws…]` + LF -/
 
@@ -294,7 +398,7 @@ def flagsText : List Flag → Str
 
 theorem tableColumn_settings (props : Bool) (c : Cur) (cn ty : Str) (w : Flag) (ws : List Flag) (rest : Str)
     (hc : c.rest = ' ' :: ' ' :: ' ' :: ' ' :: '"' :: (cn ++ '"' :: ' ' :: (ty ++ flagsText (w :: ws) ++ '\n' :: rest)))
-    (hp : c.pastEnd = false) (hcn : NameOK cn) (hty : TypeOK ty) (hw : w.ok) (hws : ∀ q ∈ ws, q.ok) :
+    (hp : c.pastEnd = false) (hcn : NameOK cn) (hty : TypeOK ty) (hw : w.ok props) (hws : ∀ q ∈ ws, q.ok props) :
     ∃ c', tableColumn props c = .ok (colOfSettings cn ty (foldColSettings ((w :: ws).map Flag.setting) none)) c'
       ∧ c'.rest = rest ∧ c'.pastEnd = false := by
   have hfl : ty ++ flagsText (w :: ws) ++ '\n' :: rest
@@ -338,7 +442,7 @@ theorem tableColumn_settings (props : Bool) (c : Cur) (cn ty : Str) (w : Flag) (
   simp only [bind, pbind, hb, hnm, hct, hcons, hcm, hs1, hle, pure, ppure, colOfSettings]
   rfl
 
-/-! ### the form: a column with any subset of the four flags and possibly a note -/
+/-! ### the form: a column with any subset of the four flags, possibly a note, and any number of properties -/
 
 structure FCol where
   name : Str
@@ -349,76 +453,209 @@ structure FCol where
   notNull : Bool := false
   /-- the empty text means: no note -/
   note : Str := []
+  /-- arbitrary properties, in order -/
+  props : List (Str × Str) := []
 
-/-- the settings in the order the renderer writes them -/
-def FCol.flags (s : FCol) : List Flag :=
+/-- the ordinary settings in the order the renderer writes them -/
+def FCol.base (s : FCol) : List Flag :=
   (if s.pk then [Flag.pk] else []) ++ (if s.increment then [Flag.increment] else [])
     ++ (if s.unique then [Flag.unique] else []) ++ (if s.notNull then [Flag.notNull] else [])
     ++ (if s.note.isEmpty then [] else [Flag.note s.note])
+
+def propFlags (ps : List (Str × Str)) : List Flag := ps.map fun kv => Flag.prop kv.1 kv.2
+
+/-- all the settings: the ordinary ones, then the properties -/
+def FCol.flags (s : FCol) : List Flag := s.base ++ propFlags s.props
 
 def FCol.str (s : FCol) : Str := '"' :: (s.name ++ '"' :: ' ' :: (s.type ++ flagsText s.flags))
 
 def FCol.bp (s : FCol) : Bp.ColBp :=
   { name := s.name, type := s.type, unique := s.unique, notNull := s.notNull, pk := s.pk, autoinc := s.increment,
-    note := if s.note.isEmpty then none else some s.note }
+    note := if s.note.isEmpty then none else some s.note,
+    props := if s.props.isEmpty then none else some s.props }
 
 def FCol.col (s : FCol) : Column :=
   { name := s.name, type := .plain s.type, unique := s.unique, notNull := s.notNull, pk := s.pk, autoinc := s.increment,
-    note := s.note }
+    note := s.note, props := s.props }
 
-/-- a quoted name, a one-word type, and a note that is one plain normalised line without a triple quote -/
-def FCol.ok (s : FCol) : Prop :=
-  NameOK s.name ∧ TypeOK s.type ∧ Plain s.note ∧ hasTriple s.note = false ∧ norm s.note = s.note
+/-- a quoted name, a one-word type, a note that is one plain normalised line without a triple quote; properties
+    only with the switch on, their keys pairwise different bare identifiers that are not read as settings, their
+    values plain lines -/
+structure FCol.ok (ap : Bool) (s : FCol) : Prop where
+  name : NameOK s.name
+  type : TypeOK s.type
+  notePlain : Plain s.note
+  noteTriple : hasTriple s.note = false
+  noteNorm : norm s.note = s.note
+  propsOn : s.props = [] ∨ ap = true
+  keys : ∀ kv ∈ s.props, KeyOK kv.1
+  values : ∀ kv ∈ s.props, Plain kv.2 ∧ hasTriple kv.2 = false
+  distinct : s.props.Pairwise (fun a b => a.1 ≠ b.1)
 
-theorem FCol.flags_ok (s : FCol) (hok : s.ok) : ∀ w ∈ s.flags, w.ok := by
+theorem FCol.flags_ok (ap : Bool) (s : FCol) (hok : s.ok ap) : ∀ w ∈ s.flags, w.ok ap := by
   intro w hw
-  simp only [FCol.flags, List.mem_append] at hw
-  rcases hw with (((h | h) | h) | h) | h
+  simp only [FCol.flags, FCol.base, propFlags, List.mem_append, List.mem_map] at hw
+  rcases hw with ((((h | h) | h) | h) | h) | ⟨kv, hkv, rfl⟩
   · split at h <;> simp at h; subst h; trivial
   · split at h <;> simp at h; subst h; trivial
   · split at h <;> simp at h; subst h; trivial
   · split at h <;> simp at h; subst h; trivial
-  · split at h <;> simp at h; subst h; exact ⟨hok.2.2.1, hok.2.2.2.1⟩
+  · split at h <;> simp at h; subst h; exact ⟨hok.notePlain, hok.noteTriple⟩
+  · have hap : ap = true := by
+      rcases hok.propsOn with h | h
+      · rw [h] at hkv; cases hkv
+      · exact h
+    exact ⟨hap, hok.keys kv hkv, hok.values kv hkv⟩
 
-theorem FCol.settings_bp (s : FCol) (w : Flag) (ws : List Flag) (h : s.flags = w :: ws) :
+/-! #### `parse_column_settings` on ordinary settings followed by properties -/
+
+def propItems (ps : List (Str × Str)) : List ColSetting := ps.map fun kv => ColSetting.prop kv.1 kv.2
+
+theorem map_setting_flags (s : FCol) : s.flags.map Flag.setting = s.base.map Flag.setting ++ propItems s.props := by
+  simp [FCol.flags, propFlags, propItems, Flag.setting, Function.comp_def]
+
+theorem foldl_propItems {β} (f : β → ColSetting → β) (hf : ∀ a k v, f a (ColSetting.prop k v) = a) (ps : List (Str × Str))
+    (a : β) : (propItems ps).foldl f a = a := by
+  induction ps generalizing a with
+  | nil => rfl
+  | cons p r ih => simp only [propItems, List.map_cons, List.foldl_cons, hf]; exact ih a
+
+theorem any_propItems (f : ColSetting → Bool) (hf : ∀ k v, f (ColSetting.prop k v) = false) (ps : List (Str × Str)) :
+    (propItems ps).any f = false := by
+  induction ps with
+  | nil => rfl
+  | cons p r ih => simp only [propItems, List.map_cons, List.any_cons, hf, Bool.false_or]; exact ih
+
+theorem filterMap_propItems_none {β} (f : ColSetting → Option β) (hf : ∀ k v, f (ColSetting.prop k v) = none)
+    (ps : List (Str × Str)) : (propItems ps).filterMap f = [] := by
+  induction ps with
+  | nil => rfl
+  | cons p r ih => simp only [propItems, List.map_cons, List.filterMap_cons, hf]; exact ih
+
+theorem filterMap_propItems_some (f : ColSetting → Option (Str × Str)) (hf : ∀ k v, f (ColSetting.prop k v) = some (k, v))
+    (ps : List (Str × Str)) : (propItems ps).filterMap f = ps := by
+  induction ps with
+  | nil => rfl
+  | cons p r ih =>
+    simp only [propItems, List.map_cons, List.filterMap_cons, hf]
+    exact congrArg _ ih
+
+/-- the settings dict of ordinary settings followed by properties: the ordinary part decides everything but `props` -/
+theorem filterMap_none_append {α β} (A : List α) (f : α → Option β) (ps : List β) (h : ∀ x ∈ A, f x = none) :
+    A.filterMap f ++ ps = ps := by
+  rw [List.filterMap_eq_nil_iff.mpr h]; rfl
+
+theorem fold_append_props (A : List ColSetting) (ps : List (Str × Str))
+    (hA : ∀ x ∈ A, ∀ k v, x ≠ ColSetting.prop k v) :
+    foldColSettings (A ++ propItems ps) none
+      = { foldColSettings A none with props := if ps.isEmpty then none else some (Bp.dictOf ps) } := by
+  unfold foldColSettings
+  simp only [List.foldl_append, List.any_append, List.filterMap_append]
+  rw [foldl_propItems _ (fun _ _ _ => rfl), foldl_propItems _ (fun _ _ _ => rfl), foldl_propItems _ (fun _ _ _ => rfl),
+    any_propItems _ (fun _ _ => rfl), any_propItems _ (fun _ _ => rfl), any_propItems _ (fun _ _ => rfl),
+    filterMap_propItems_some _ (fun _ _ => rfl), filterMap_propItems_none _ (fun _ _ => rfl),
+    filterMap_none_append A _ ps (fun x hx => by
+      cases x with
+      | prop k v => exact absurd rfl (hA _ hx k v)
+      | _ => rfl)]
+  simp
+
+theorem dictSet_new (d : List (Str × Str)) (k v : Str) (h : ∀ p ∈ d, p.1 ≠ k) : Bp.dictSet d k v = d ++ [(k, v)] := by
+  unfold Bp.dictSet
+  have : d.any (fun p => p.1 == k) = false := by
+    rw [List.any_eq_false]; intro p hp; simpa using h p hp
+  simp [this]
+
+theorem dictOf_distinct (ps : List (Str × Str)) (h : ps.Pairwise (fun a b => a.1 ≠ b.1)) : Bp.dictOf ps = ps := by
+  have key : ∀ (ps d : List (Str × Str)), (d ++ ps).Pairwise (fun a b => a.1 ≠ b.1) →
+      ps.foldl (fun d p => Bp.dictSet d p.1 p.2) d = d ++ ps := by
+    intro ps
+    induction ps with
+    | nil => intro d _; simp
+    | cons p r ih =>
+      intro d hd
+      rw [List.foldl_cons, dictSet_new d p.1 p.2 (by
+        intro q hq
+        have := List.pairwise_append.mp hd
+        exact this.2.2 q hq p (by simp))]
+      have := ih (d ++ [p]) (by simpa using hd)
+      simpa using this
+  unfold Bp.dictOf
+  simpa using key ps [] (by simpa using h)
+
+theorem FCol.base_no_prop (s : FCol) : ∀ x ∈ s.base.map Flag.setting, ∀ k v, x ≠ ColSetting.prop k v := by
+  intro x hx k v h
+  simp only [List.mem_map] at hx
+  obtain ⟨w, hw, rfl⟩ := hx
+  simp only [FCol.base, List.mem_append] at hw
+  rcases hw with (((h' | h') | h') | h') | h' <;> (split at h' <;> simp at h'; subst h'; simp [Flag.setting] at h)
+
+theorem FCol.settings_bp (s : FCol) (w : Flag) (ws : List Flag) (h : s.flags = w :: ws)
+    (hd : s.props.Pairwise (fun a b => a.1 ≠ b.1)) :
     colOfSettings s.name s.type (foldColSettings ((w :: ws).map Flag.setting) none) = s.bp := by
-  rw [← h]
-  obtain ⟨n, t, a, b, c, d, e⟩ := s
-  cases e <;> cases a <;> cases b <;> cases c <;> cases d <;> first | rfl | (exfalso; simp [FCol.flags] at h)
+  rw [← h, map_setting_flags, fold_append_props _ _ (FCol.base_no_prop s)]
+  obtain ⟨n, t, a, b, c, d, e, ps⟩ := s
+  have hdict := dictOf_distinct ps hd
+  cases e <;> cases a <;> cases b <;> cases c <;> cases d <;>
+    (simp only [colOfSettings, FCol.bp, hdict]; rfl)
 
 theorem FCol.plain_bp (s : FCol) (h : s.flags = []) : plainCol s.name s.type = s.bp := by
-  obtain ⟨n, t, a, b, c, d, e⟩ := s
-  cases e <;> cases a <;> cases b <;> cases c <;> cases d <;> first | rfl | (exfalso; simp [FCol.flags] at h)
+  obtain ⟨n, t, a, b, c, d, e, ps⟩ := s
+  cases ps with
+  | cons p r => exfalso; simp [FCol.flags, propFlags] at h
+  | nil =>
+    cases e <;> cases a <;> cases b <;> cases c <;> cases d <;>
+      first | rfl | (exfalso; simp [FCol.flags, FCol.base, propFlags] at h)
 
-theorem flag_text_line (w : Flag) (hw : w.ok) : LineOK w.text ∧ ∀ ch ∈ w.text, ch ≠ '\t' := by
-  cases w with
-  | note t =>
-    obtain ⟨ht, _⟩ := hw
-    have e : (Flag.note t).text = ['n', 'o', 't', 'e', ':', ' ', '\''] ++ prepareTextForDbml t ++ ['\''] := by
-      simp [Flag.text]
+/-! #### the rendered line -/
+
+theorem flag_text_line (ap : Bool) (w : Flag) (hw : w.ok ap) : LineOK w.text ∧ ∀ ch ∈ w.text, ch ≠ '\t' := by
+  have quoted : ∀ (pre t : Str), Plain t → (∀ c ∈ pre, isLineBreak c = false ∧ c ≠ '\t') →
+      LineOK (pre ++ '\'' :: (prepareTextForDbml t ++ ['\''])) ∧ ∀ ch ∈ pre ++ '\'' :: (prepareTextForDbml t ++ ['\'']), ch ≠ '\t' := by
+    intro pre t ht hpre
+    have e : pre ++ '\'' :: (prepareTextForDbml t ++ ['\'']) = pre ++ ['\''] ++ prepareTextForDbml t ++ ['\''] := by simp
+    rw [e]
     constructor
     · intro c hc
-      rw [e] at hc; simp only [List.mem_append] at hc
-      rcases hc with (h | h) | h
-      · exact (by decide : ∀ c ∈ ['n', 'o', 't', 'e', ':', ' ', '\''], isLineBreak c = false) c h
+      simp only [List.mem_append] at hc
+      rcases hc with ((h | h) | h) | h
+      · exact (hpre c h).1
+      · exact (by decide : ∀ c ∈ ['\''], isLineBreak c = false) c h
       · rcases prepare_mem _ c h with h' | rfl
         · exact (ht c h').1
         · decide
       · exact (by decide : ∀ c ∈ ['\''], isLineBreak c = false) c h
     · intro c hc
-      rw [e] at hc; simp only [List.mem_append] at hc
-      rcases hc with (h | h) | h
-      · exact (by decide : ∀ c ∈ ['n', 'o', 't', 'e', ':', ' ', '\''], c ≠ '\t') c h
+      simp only [List.mem_append] at hc
+      rcases hc with ((h | h) | h) | h
+      · exact (hpre c h).2
+      · exact (by decide : ∀ c ∈ ['\''], c ≠ '\t') c h
       · rcases prepare_mem _ c h with h' | rfl
         · exact (ht c h').2
         · decide
       · exact (by decide : ∀ c ∈ ['\''], c ≠ '\t') c h
+  cases w with
+  | note t =>
+    obtain ⟨ht, _⟩ := hw
+    have := quoted ['n', 'o', 't', 'e', ':', ' '] t ht (by decide)
+    simpa [Flag.text] using this
+  | prop k v =>
+    obtain ⟨_, ⟨_, hall, _⟩, hv, _⟩ := hw
+    have hk : ∀ c ∈ k ++ [':', ' '], isLineBreak c = false ∧ c ≠ '\t' := by
+      intro c hc
+      simp only [List.mem_append] at hc
+      rcases hc with h | h
+      · have hc' : isNameChar c = true := by simp only [List.all_eq_true] at hall; exact hall c h
+        exact ⟨nameChar_not_lineBreak c hc', nameChar_not_tab c hc'⟩
+      · exact (by decide : ∀ c ∈ [':', ' '], isLineBreak c = false ∧ c ≠ '\t') c h
+    have := quoted (k ++ [':', ' ']) v hv hk
+    simpa [Flag.text] using this
   | pk => exact ⟨by intro c hc; revert c; decide, by intro c hc; revert c; decide⟩
   | increment => exact ⟨by intro c hc; revert c; decide, by intro c hc; revert c; decide⟩
   | unique => exact ⟨by intro c hc; revert c; decide, by intro c hc; revert c; decide⟩
   | notNull => exact ⟨by intro c hc; revert c; decide, by intro c hc; revert c; decide⟩
 
-theorem moreFlags_line (ws : List Flag) (hws : ∀ w ∈ ws, w.ok) :
+theorem moreFlags_line (ap : Bool) (ws : List Flag) (hws : ∀ w ∈ ws, w.ok ap) :
     LineOK (moreFlags ws) ∧ ∀ ch ∈ moreFlags ws, ch ≠ '\t' := by
   induction ws with
   | nil => exact ⟨by intro c hc; simp [moreFlags] at hc, by intro c hc; simp [moreFlags] at hc⟩
@@ -431,36 +668,36 @@ theorem moreFlags_line (ws : List Flag) (hws : ∀ w ∈ ws, w.ok) :
       rw [e] at hc; simp only [List.mem_append] at hc
       rcases hc with (h | h) | h
       · exact (by decide : ∀ c ∈ [',', ' '], isLineBreak c = false) c h
-      · exact (flag_text_line w hw).1 c h
+      · exact (flag_text_line ap w hw).1 c h
       · exact ih.1 c h
     · intro c hc
       rw [e] at hc; simp only [List.mem_append] at hc
       rcases hc with (h | h) | h
       · exact (by decide : ∀ c ∈ [',', ' '], c ≠ '\t') c h
-      · exact (flag_text_line w hw).2 c h
+      · exact (flag_text_line ap w hw).2 c h
       · exact ih.2 c h
 
-theorem flagsText_line (ws : List Flag) (hws : ∀ w ∈ ws, w.ok) :
+theorem flagsText_line (ap : Bool) (ws : List Flag) (hws : ∀ w ∈ ws, w.ok ap) :
     LineOK (flagsText ws) ∧ ∀ ch ∈ flagsText ws, ch ≠ '\t' := by
   cases ws with
   | nil => exact ⟨by intro c hc; simp [flagsText] at hc, by intro c hc; simp [flagsText] at hc⟩
   | cons w r =>
     have hw := hws w (by simp)
-    have hr := moreFlags_line r (fun q hq => hws q (by simp [hq]))
+    have hr := moreFlags_line ap r (fun q hq => hws q (by simp [hq]))
     have e : flagsText (w :: r) = [' ', '['] ++ w.text ++ moreFlags r ++ [']'] := by simp [flagsText]
     constructor
     · intro c hc
       rw [e] at hc; simp only [List.mem_append] at hc
       rcases hc with ((h | h) | h) | h
       · exact (by decide : ∀ c ∈ [' ', '['], isLineBreak c = false) c h
-      · exact (flag_text_line w hw).1 c h
+      · exact (flag_text_line ap w hw).1 c h
       · exact hr.1 c h
       · exact (by decide : ∀ c ∈ [']'], isLineBreak c = false) c h
     · intro c hc
       rw [e] at hc; simp only [List.mem_append] at hc
       rcases hc with ((h | h) | h) | h
       · exact (by decide : ∀ c ∈ [' ', '['], c ≠ '\t') c h
-      · exact (flag_text_line w hw).2 c h
+      · exact (flag_text_line ap w hw).2 c h
       · exact hr.2 c h
       · exact (by decide : ∀ c ∈ [']'], c ≠ '\t') c h
 
@@ -477,14 +714,71 @@ theorem containsChar_plain (t : Str) (ht : Plain t) : containsChar '\n' t = fals
   subst h
   simp [isLineBreak] at this
 
-theorem FCol.render (ap : Bool) (ts : List Table) (ti ci : Nat) (s : FCol) (hok : s.ok) :
+theorem joinWith_flags (w : Flag) (ws : List Flag) :
+    joinWith [',', ' '] ((w :: ws).map Flag.text) = w.text ++ moreFlags ws := by
+  induction ws generalizing w with
+  | nil => simp [joinWith, moreFlags]
+  | cons a r ih =>
+    have := ih a
+    simp only [List.map_cons] at this ⊢
+    rw [joinWith.eq_3 _ _ _ (by simp), this]
+    simp [moreFlags]
+
+/-- the bracket the renderer writes for a list of option texts -/
+theorem flagsText_eq (ws : List Flag) :
+    flagsText ws = if (ws.map Flag.text).isEmpty then [] else lit " [" ++ joinWith (lit ", ") (ws.map Flag.text) ++ [']'] := by
+  cases ws with
+  | nil => rfl
+  | cons w r =>
+    have := joinWith_flags w r
+    simp only [List.map_cons] at this
+    simp [flagsText, lit, this]
+
+theorem FCol.render (ap : Bool) (ts : List Table) (ti ci : Nat) (s : FCol) (hok : s.ok ap) :
     Dbml.renderColumn { tables := ts, allowProps := ap } ti ci s.col = .ok s.str := by
-  have hnl := containsChar_plain s.note hok.2.2.1
-  obtain ⟨n, t, a, b, c, d, e⟩ := s
-  cases e <;> cases a <;> cases b <;> cases c <;> cases d <;>
-    simp [Dbml.renderColumn, Sql.typeText, Dbml.inlineRefsOfColumn, FCol.col, FCol.str, FCol.flags, flagsText, moreFlags,
-      Flag.text, Dbml.optComment, joinWith, bind, Except.bind, pure, Except.pure, lit, noteOptionToDbml] <;>
-    simp [hnl] at *
+  have hnl := containsChar_plain s.note hok.notePlain
+  have hprops : (if ap then s.props.map (fun (kv : Str × Str) => kv.1 ++ lit ": " ++ quoteString kv.2) else [])
+      = (propFlags s.props).map Flag.text := by
+    rcases hok.propsOn with h | h
+    · rw [h]; cases ap <;> rfl
+    · subst h
+      simp only [↓reduceIte, propFlags, List.map_map]
+      apply List.map_congr_left
+      intro kv hkv
+      have := containsChar_plain kv.2 (hok.values kv hkv).1
+      simp [quoteString, this, Flag.text, lit]
+  have hopts : ([] : List Str)
+      ++ (if s.col.pk then [lit "pk"] else [])
+      ++ (if s.col.autoinc then [lit "increment"] else [])
+      ++ (match s.col.default with
+          | some d => if d.truthy then [lit "default: " ++ Dbml.defaultToStr d] else []
+          | none => [])
+      ++ (if s.col.unique then [lit "unique"] else [])
+      ++ (if s.col.notNull then [lit "not null"] else [])
+      ++ (if s.col.note.isEmpty then [] else [noteOptionToDbml s.col.note])
+      ++ (if ap then s.col.props.map fun (x : Str × Str) => x.fst ++ lit ": " ++ quoteString x.snd else [])
+      = s.flags.map Flag.text := by
+    have e : (if ap then s.col.props.map fun (x : Str × Str) => x.fst ++ lit ": " ++ quoteString x.snd else [])
+        = (propFlags s.props).map Flag.text := hprops
+    rw [e]
+    simp only [FCol.flags, List.map_append]
+    congr 1
+    obtain ⟨n, t, a, b, c, d, e', ps⟩ := s
+    cases e' <;> cases a <;> cases b <;> cases c <;> cases d <;>
+      simp [FCol.col, FCol.base, Flag.text, lit, noteOptionToDbml] <;> simp [hnl] at *
+  have fin : ∀ opts : List Str, opts = s.flags.map Flag.text →
+      (Except.ok (Dbml.optComment s.col.comment ++ '"' :: s.col.name ++ lit "\" " ++ s.type ++
+        (if opts.isEmpty then [] else lit " [" ++ joinWith (lit ", ") opts ++ [']'])) : R Str) = .ok s.str := by
+    intro opts ho
+    rw [ho, FCol.str, flagsText_eq]
+    simp [FCol.col, Dbml.optComment, lit]
+  unfold Dbml.renderColumn
+  have hty : Sql.typeText { tables := ts, allowProps := ap } s.col = .ok s.type := by
+    simp [Sql.typeText, FCol.col, pure, Except.pure]
+  have hin : Dbml.inlineRefsOfColumn { tables := ts, allowProps := ap } ti ci = [] := by
+    simp [Dbml.inlineRefsOfColumn]
+  simp only [hty, hin, List.mapM_nil, bind, Except.bind, pure, Except.pure]
+  exact fin _ hopts
 
 def flagForm : ColForm FCol where
   str := FCol.str
@@ -496,18 +790,19 @@ def flagForm : ColForm FCol where
     intro props c s rest hc hp hok
     cases hf : s.flags with
     | nil =>
-      have := tableColumn_ok props c s.name s.type rest (by rw [hc]; simp [FCol.str, hf, flagsText, colLine]) hp hok.1 hok.2.1
+      have := tableColumn_ok props c s.name s.type rest (by rw [hc]; simp [FCol.str, hf, flagsText, colLine]) hp
+        hok.name hok.type
       rw [FCol.plain_bp s hf] at this
       exact this
     | cons w ws =>
-      have hall := FCol.flags_ok s hok
+      have hall := FCol.flags_ok props s hok
       rw [hf] at hall
-      have := tableColumn_settings props c s.name s.type w ws rest (by rw [hc]; simp [FCol.str, hf]) hp hok.1 hok.2.1
+      have := tableColumn_settings props c s.name s.type w ws rest (by rw [hc]; simp [FCol.str, hf]) hp hok.name hok.type
         (hall w (by simp)) (fun q hq => hall q (by simp [hq]))
-      rw [FCol.settings_bp s w ws hf] at this
+      rw [FCol.settings_bp s w ws hf hok.distinct] at this
       exact this
   noTab := by
-    intro s hok ch hch
+    intro ap s hok ch hch
     rw [FCol.str_split] at hch
     simp only [List.mem_append] at hch
     rcases hch with h | h
@@ -515,58 +810,83 @@ def flagForm : ColForm FCol where
       rw [e] at h; simp only [List.mem_append] at h
       rcases h with ((h | h) | h) | h
       · exact (by decide : ∀ c ∈ ['"'], c ≠ '\t') ch h
-      · exact (hok.1 ch h).2.2.2
+      · exact (hok.name ch h).2.2.2
       · exact (by decide : ∀ c ∈ ['"', ' '], c ≠ '\t') ch h
-      · exact typeOK_no_tab s.type hok.2.1 ch h
-    · exact (flagsText_line s.flags (FCol.flags_ok s hok)).2 ch h
+      · exact typeOK_no_tab s.type hok.type ch h
+    · exact (flagsText_line ap s.flags (FCol.flags_ok ap s hok)).2 ch h
   lineOK := by
-    intro s hok ch hch
+    intro ap s hok ch hch
     rw [FCol.str_split] at hch
     simp only [List.mem_append] at hch
     rcases hch with h | h
-    · exact colStr_ok (s.name, s.type) hok.1 hok.2.1 ch h
-    · exact (flagsText_line s.flags (FCol.flags_ok s hok)).1 ch h
+    · exact colStr_ok (s.name, s.type) hok.name hok.type ch h
+    · exact (flagsText_line ap s.flags (FCol.flags_ok ap s hok)).1 ch h
   norefs := fun _ => rfl
   build := by
-    intro s hok
-    have hn := hok.2.2.2.2
-    obtain ⟨n, t, a, b, c, d, e⟩ := s
-    cases e with
-    | nil =>
-      simp [buildColumn, buildDefault, resolveType, resolveTypePure, buildNote, FCol.bp, FCol.col,
+    intro ap s hok
+    have hn := hok.noteNorm
+    obtain ⟨n, t, a, b, c, d, e, ps⟩ := s
+    cases ps <;> cases e <;>
+      simp_all [buildColumn, buildDefault, resolveType, resolveTypePure, buildNote, FCol.bp, FCol.col,
         bind, Except.bind, pure, Except.pure]
-    | cons x r =>
-      simp only at hn
-      simp [buildColumn, buildDefault, resolveType, resolveTypePure, buildNote, FCol.bp, FCol.col,
-        bind, Except.bind, pure, Except.pure, hn]
   render := fun ap ts ti ci s hok => FCol.render ap ts ti ci s hok
 
-/-- **C02 for a table whose columns carry settings, end to end**: a database holding one table in schema public
-    with any positive number of columns, each with a quoted name, a one-word type, ANY SUBSET of the settings
-    `pk`, `increment`, `unique`, `not null` and possibly a one-line note, is rendered to DBML and parsed back to
-    exactly the same database, with the properties switch on or off.  The settings travel through
-    `column_settings` (or `column_settings_with_properties`), `parse_column_settings`, `ColumnBlueprint.build`
-    (where the note is normalised) and `render_column`. -/
+/-- **C02 (and C15) for a table whose columns carry settings, end to end**: a database holding one table in schema
+    public with any positive number of columns, each with a quoted name, a one-word type, ANY SUBSET of the settings
+    `pk`, `increment`, `unique`, `not null`, possibly a one-line note and - when the properties switch is on - any
+    number of arbitrary properties `key: 'value'` (keys and values exact, order kept), is rendered to DBML and parsed
+    back to exactly the same database.  The settings travel through `column_settings` (switch off) or
+    `column_settings_with_properties` (switch on), `parse_column_settings`, `ColumnBlueprint.build` (where the note
+    is normalised) and `render_column`. -/
 theorem flags_table_roundtrip_partial (ap : Bool) (tn : Str) (cs : List FCol)
-    (htn : NameOK tn) (hcs : ∀ s ∈ cs, s.ok) (hne : cs ≠ []) :
+    (htn : NameOK tn) (hcs : ∀ s ∈ cs, s.ok ap) (hne : cs ≠ []) :
     ∃ text, Dbml.renderDb { tables := [{ name := tn, columns := cs.map FCol.col }], allowProps := ap } = .ok text
       ∧ Build.parse ap text
           = .ok { tables := [{ name := tn, columns := cs.map FCol.col }], allowProps := ap } :=
   form_roundtrip flagForm ap tn cs htn hcs hne
 
-/-- non-vacuity: a primary key with auto-increment, a unique not-null column with a note, a bare column -/
+/-- a key whose first letter begins no setting word is a property key -/
+theorem keyOK_of_first (x : Char) (xs : Str) (hall : (x :: xs).all isNameChar = true)
+    (hx : pyUpper1 x ∉ [pyUpper1 'n', pyUpper1 'p', pyUpper1 'u', pyUpper1 'i', pyUpper1 'r', pyUpper1 'd']) :
+    KeyOK (x :: xs) := by
+  refine ⟨by simp, hall, ?_⟩
+  intro kw hkw r
+  simp only [List.mem_cons, List.mem_nil_iff, or_false, not_or] at hx
+  simp only [settingWords, List.mem_cons, List.mem_nil_iff, or_false] at hkw
+  rcases hkw with rfl | rfl | rfl | rfl | rfl | rfl | rfl | rfl | rfl <;>
+    simp [startsWithCaseless, Ne.symm hx.1, Ne.symm hx.2.1, Ne.symm hx.2.2.1, Ne.symm hx.2.2.2.1, Ne.symm hx.2.2.2.2.1,
+      Ne.symm hx.2.2.2.2.2]
+
+/-- non-vacuity: a primary key with auto-increment, a unique not-null column with a note and two properties
+    (switch on), a bare column -/
 example : ∀ s ∈ [({ name := lit "id", type := lit "int", pk := true, increment := true } : FCol),
-      { name := lit "e mail", type := lit "varchar", unique := true, notNull := true, note := lit "it's the login" },
-      { name := lit "age", type := lit "int" }], s.ok := by
+      { name := lit "e mail", type := lit "varchar", unique := true, notNull := true, note := lit "it's the login",
+        props := [(lit "color", lit "red"), (lit "weight", lit "1 kg")] },
+      { name := lit "age", type := lit "int" }], s.ok true := by
   intro s hs
   simp at hs
-  rcases hs with rfl | rfl | rfl <;>
-    refine ⟨fun c hc => ?_, ⟨by decide, by decide⟩, fun c hc => ?_, by decide, by decide⟩ <;> (revert c; decide)
+  rcases hs with rfl | rfl | rfl
+  · exact ⟨fun c hc => by revert c; decide, ⟨by decide, by decide⟩, fun c hc => by revert c; decide, by decide, by decide,
+      Or.inl rfl, (by intro kv h; cases h), (by intro kv h; cases h), by simp⟩
+  · refine ⟨fun c hc => by revert c; decide, ⟨by decide, by decide⟩, fun c hc => by revert c; decide, by decide, by decide,
+      Or.inr rfl, ?_, ?_, by decide⟩
+    · intro kv h
+      simp at h
+      rcases h with rfl | rfl
+      · exact keyOK_of_first 'c' _ (by decide) (by decide)
+      · exact keyOK_of_first 'w' _ (by decide) (by decide)
+    · intro kv h
+      simp at h
+      rcases h with rfl | rfl <;> exact ⟨fun c hc => by revert c; decide, by decide⟩
+  · exact ⟨fun c hc => by revert c; decide, ⟨by decide, by decide⟩, fun c hc => by revert c; decide, by decide, by decide,
+      Or.inl rfl, (by intro kv h; cases h), (by intro kv h; cases h), by simp⟩
 
 /-- the text of such a table, as the renderer model writes it (a test of the statement on one literal) -/
 example : flagForm.tableText (lit "t") [{ name := lit "id", type := lit "int", pk := true, increment := true },
-      { name := lit "m", type := lit "text", unique := true, notNull := true, note := lit "it's" }]
-    = lit "Table \"t\" {\n    \"id\" int [pk, increment]\n    \"m\" text [unique, not null, note: 'it\\'s']\n}" := by decide
+      { name := lit "m", type := lit "text", unique := true, notNull := true, note := lit "it's",
+        props := [(lit "color", lit "red")] }]
+    = lit "Table \"t\" {\n    \"id\" int [pk, increment]\n    \"m\" text [unique, not null, note: 'it\\'s', color: 'red']\n}" := by
+  decide
 
 end C02
 end PyDBML
